@@ -25,3 +25,14 @@ pub fn conv(r: rrtk::Reference<Foo>) -> rrtk::Reference<dyn Tr> {
 pub fn conv_again(r: rrtk::Reference<dyn Tr>) -> rrtk::Reference<dyn Base> {
     rrtk::to_dyn!(Base, r)
 }
+/// A target type that is not `'static` (it borrows): the conversion must not force `dyn Tr + 'static`.
+pub struct Holder<'a>(pub &'a i32);
+impl Base for Holder<'_> {}
+impl Tr for Holder<'_> {
+    fn f(&self) -> i32 {
+        *self.0
+    }
+}
+pub fn conv_borrowed<'a>(r: rrtk::Reference<Holder<'a>>) -> rrtk::Reference<dyn Tr + 'a> {
+    rrtk::to_dyn!(Tr, r)
+}
